@@ -47,6 +47,8 @@ def cfg_line(c):
         line += " nreq=" + c["nreq"]
     if c.get("pre"):
         line += " pre=" + ";".join(c["pre"])
+    if c.get("late"):
+        line += " late=1"       # harness only: the archetypes exist but are empty during the `pre` runs
     return line
 
 
@@ -68,6 +70,8 @@ def parse_cfg_line(line):
             c["nreq"] = v
         elif k == "pre":
             c["pre"] = [x for x in v.split(";") if x]
+        elif k == "late":
+            c["late"] = v == "1"
         elif k == "archs":
             for item in v.split(","):
                 if not item:
@@ -415,6 +419,9 @@ def rerun_family(gen, thorough):
         for T in (1, 3, None):
             out.append(gen.mk(worlds[0], 2, T, "parallel", job=job, filt="none", defcs=2, pre=["x"]))
             out.append(gen.mk(worlds[1], 3, T, "single", job=job, filt="ver", defcs=3, pre=["x", "x"]))
+            # ... and it ran before while every archetype was still empty
+            out.append(dict(gen.mk(worlds[0], 2, T, "current", job=job, filt="extra", defcs=2, pre=["x"]), late=True))
+            out.append(dict(gen.mk(worlds[1], 3, T, "parallel", job=job, filt="ver", defcs=3, pre=["x"]), late=True))
     return out
 
 
@@ -528,6 +535,8 @@ def random_cfg(gen, max_pop, max_archs, big=False):
         c["T"] = draw_T(n_selected(archs, c["job"], c["nreq"]))
     elif rng.random() < 0.1 and not big:
         c["pre"] = ["x"]
+    if c.get("pre") and rng.random() < 0.5:
+        c["late"] = True        # the same job object ran while the archetypes were still empty
     return c
 
 
@@ -677,6 +686,8 @@ def shrink(exe, drv, c, threads, want_oracle, budget=150, hang=False):
             for t2 in sorted({1, cur["T"] // 2, cur["T"] - 1}):
                 if 1 <= t2 < cur["T"]:
                     cands.append(dict(cur, T=t2))
+        if cur.get("late"):
+            cands.append(dict(cur, late=False))
         pre = cur.get("pre") or []
         for i in range(len(pre)):
             cands.append(dict(cur, pre=pre[:i] + pre[i + 1:]))
